@@ -47,6 +47,9 @@ pub(crate) fn standalone_ty(p: &mut Parser) {
             }
         }
     }
+    if !matches!(p.peek(), None | Some(TokenKind::Eof)) {
+        p.err("expected end of input after the type");
+    }
 }
 
 /// Returns the type on success, or the TokenKind that caused an error.
